@@ -1,6 +1,7 @@
 import Engeom.Driver.C18
 import Engeom.Driver.C03
 import Engeom.Driver.C06
+import Engeom.Driver.C08
 import Engeom.Driver.C09
 import Engeom.Driver.C11
 import Engeom.Driver.C12
@@ -15,6 +16,7 @@ def dispatch (op : String) (args : List String) : Option String :=
   | "dev" | "tolmap" | "cloud" => DrvC16.handle op args
   | "domain" => if op = "domain.index_of" then DrvC16.handle op args else DrvC17.handle op args
   | "circle" | "arc" => DrvC11.handle op args
+  | "param" | "jac" => DrvC08.handle op args
   | "fit" => DrvC09.handle op args
   | "ray" => DrvC06.handle op args
   | "xform" => DrvC03.handle op args
